@@ -249,6 +249,35 @@ theorem mergewalk_classes (c : Cfg P) (L : LawfulCmp c.cmp) (ds : List (DEnt P))
     obtain ⟨d, hd', n, hn', h1, h2, h3⟩ := walk_matched_sound c ds ns p h
     exact ⟨d, hd', n, hn', h1, by rw [← (L.eq_iff _ _).1 h2]; exact h1, h3⟩
 
+theorem mem_removedOf {evs : List (Ev P)} {p : P} (h : p ∈ removedOf evs) : ∃ isDir, Ev.additional p isDir true ∈ evs := by
+  induction evs with
+  | nil => cases h
+  | cons e rest ih =>
+    cases e with
+    | additional q d r =>
+      cases r with
+      | true =>
+        rcases List.mem_cons.1 h with h | h
+        · exact ⟨d, by rw [h]; exact List.mem_cons_self⟩
+        · obtain ⟨d', hd'⟩ := ih h; exact ⟨d', List.mem_cons_of_mem _ hd'⟩
+      | false => obtain ⟨d', hd'⟩ := ih h; exact ⟨d', List.mem_cons_of_mem _ hd'⟩
+    | matched q => obtain ⟨d', hd'⟩ := ih h; exact ⟨d', List.mem_cons_of_mem _ hd'⟩
+    | skipped q => obtain ⟨d', hd'⟩ := ih h; exact ⟨d', List.mem_cons_of_mem _ hd'⟩
+    | node q k e => obtain ⟨d', hd'⟩ := ih h; exact ⟨d', List.mem_cons_of_mem _ hd'⟩
+
+/-- **delete_spares_snapshot_paths.**  `--delete` never hands a snapshot path to `remove_dir` / `remove_file` unless the
+entry there has a type the node does not fit (a file in place of a directory, …, which is then re-created): for every
+destination listing and node stream sorted by the comparison the walk uses (a strict total order), every removed path has
+no node, or a node of a mismatching type.  The hypothesis "sorted by the SAME comparison" is what the seeded change C14-3
+breaks (byte-wise comparison of streams that are sorted component-wise) — witness below. -/
+theorem delete_spares_snapshot_paths (c : Cfg P) (L : LawfulCmp c.cmp) (ds : List (DEnt P)) (ns : List (NEnt P))
+    (hd : SortedD c ds) (hn : SortedN c ns) :
+    ∀ p ∈ removedOf (walk c ds ns),
+      (∀ n ∈ ns, n.path ≠ p) ∨ (∃ n ∈ ns, ∃ d ∈ ds, n.path = p ∧ d.path = p ∧ mismatch n.kind d.kind = true) := by
+  intro p hp
+  obtain ⟨isDir, h⟩ := mem_removedOf hp
+  exact (mergewalk_classes c L ds ns hd hn).1 p isDir true h
+
 /-- non-vacuity: paths are numbers, the children of directory `d` are `10·d … 10·d+9`.  Destination: dir 1 (with 10, 11),
 file 2, file 3; snapshot: file 2, dir 3, file 4; `--delete`. -/
 def exCfg (delete : Bool) : Cfg Nat :=
@@ -268,6 +297,16 @@ example : LawfulCmp (exCfg true).cmp :=
 
 example : SortedD (exCfg true) [⟨1, .dir⟩, ⟨2, .file⟩, ⟨3, .file⟩] ∧ SortedN (exCfg true) [⟨2, .file⟩, ⟨3, .dir⟩, ⟨4, .file⟩] := by
   simp [SortedD, SortedN, exCfg, Nat.compare_eq_lt]
+
+/-- Witness for the sortedness hypothesis of `delete_spares_snapshot_paths` (the seeded change C14-3): directory 1 holds
+10 and 11, file 2 is its sibling; listing and stream are in walk order (1, 10, 11, 2 — "`a/keep`, `a/notes`, `a.txt`"), but
+the walk compares with an order they are NOT sorted by (here numeric: 2 < 10).  Destination = snapshot + the extra entry
+11: with `--delete` the walk removes 11 **and the snapshot file 2**. -/
+example : removedOf (walk (exCfg true) [⟨1, .dir⟩, ⟨10, .file⟩, ⟨11, .file⟩, ⟨2, .file⟩] [⟨1, .dir⟩, ⟨10, .file⟩, ⟨2, .file⟩]) = [11, 2] ∧
+    ¬ SortedD (exCfg true) [⟨1, .dir⟩, ⟨10, .file⟩, ⟨11, .file⟩, ⟨2, .file⟩] := by
+  constructor
+  · simp [walk, existingEvs, skipSplit, mismatch, exCfg, compare, compareOfLessAndEq, removedOf]
+  · simp [SortedD, exCfg, Nat.compare_eq_lt]
 
 end walk
 
